@@ -85,6 +85,7 @@ structure St where
   locals : List (String × LBind)
   io : IOSt
   calls : List String               -- call log, newest first
+  ctrace : List String := []        -- call log with grouping marks "(" "|" ")", newest first
   steps : Nat
   depth : Nat
 
@@ -553,6 +554,12 @@ def checkProcs (genv : List (String × GBind)) : List Proc → Except String Uni
     | .error w => throw s!"in {p.name}: {w}"
     | .ok () => checkProcs genv ps
 
+/-- Grouping mark in the structured call log: the calls made while evaluating the operands of one
+    diadic operator (other than `and`/`or`), one actual list, or the subscript and value of one
+    `a[i] := e` lie between "(" and ")" with "|" after/between the positions - X leaves the order of
+    those positions open; everything else in the log is ordered. -/
+def mark (m : String) (st : St) : St := { st with ctrace := m :: st.ctrace }
+
 /-! ### The interpreter -/
 
 mutual
@@ -587,14 +594,15 @@ def eval : Nat → Ctx → Expr → St → Res Val
     | .bin op l r =>
       if !orderOk ctx st [l, r] then .undef "evaluation order of operands matters (impure call)"
       else
-        (asInt "operand" (eval fuel ctx l st)).bind fun a s =>
-          (asInt "operand" (eval fuel ctx r s)).bind fun b s' =>
-            liftE ((arith op a b).map Val.int) s'
+        (asInt "operand" (eval fuel ctx l (mark "(" st))).bind fun a s =>
+          (asInt "operand" (eval fuel ctx r (mark "|" s))).bind fun b s' =>
+            liftE ((arith op a b).map Val.int) (mark ")" s')
     | .syscall id args =>
       if id != 2 then .undef "value of system call 0/1 (or invalid system call) used as an operand"
       else if !orderOk ctx st args then .undef "evaluation order of actuals matters (impure call)"
       else
-        (evalArgs fuel ctx args st).bind fun vs s =>
+        (evalArgs fuel ctx args (mark "(" st)).bind fun vs s0 =>
+          let s := mark ")" s0
           (doSyscall 2 vs s).bind fun r s' =>
             match r with
             | some w => .ok (.int w) s'
@@ -607,7 +615,8 @@ def eval : Nat → Ctx → Expr → St → Res Val
         | .sys id =>
           if id != 2 then .undef "value of system call 0/1 (or invalid system call) used as an operand"
           else
-            (evalArgs fuel ctx args st).bind fun vs s =>
+            (evalArgs fuel ctx args (mark "(" st)).bind fun vs s0 =>
+              let s := mark ")" s0
               (doSyscall 2 vs s).bind fun r s' =>
                 match r with
                 | some w => .ok (.int w) s'
@@ -615,7 +624,8 @@ def eval : Nat → Ctx → Expr → St → Res Val
         | .user p =>
           if !p.isFunc then .undef s!"value of procedure {f} used as an operand"
           else
-            (evalArgs fuel ctx args st).bind fun vs s =>
+            (evalArgs fuel ctx args (mark "(" st)).bind fun vs s0 =>
+              let s := mark ")" s0
               (callUser fuel ctx p vs s).bind fun r s' =>
                 match r with
                 | some w => .ok (.int w) s'
@@ -627,7 +637,7 @@ def evalArgs : Nat → Ctx → List Expr → St → Res (List Val)
   | _ + 1, _, [], st => .ok [] st
   | fuel + 1, ctx, e :: es, st =>
     (eval fuel ctx e st).bind fun v s =>
-      (evalArgs fuel ctx es s).bind fun vs s' => .ok (v :: vs) s'
+      (evalArgs fuel ctx es (mark "|" s)).bind fun vs s' => .ok (v :: vs) s'
 
 /-- One instance of a user procedure (`none`) or function (`some value`). -/
 def callUser : Nat → Ctx → Proc → List Val → St → Res (Option Word)
@@ -644,7 +654,7 @@ def callUser : Nat → Ctx → Proc → List Val → St → Res (Option Word)
         | .ok lb =>
           let saved := st.locals
           let d := st.depth
-          let st1 := { st with locals := fb ++ lb, depth := d + 1, calls := p.name :: st.calls }
+          let st1 := { st with locals := fb ++ lb, depth := d + 1, calls := p.name :: st.calls, ctrace := p.name :: st.ctrace }
           (exec fuel ctx p.body st1).bind fun fl s =>
             let s' := { s with locals := saved, depth := d }
             match fl, p.isFunc with
@@ -686,15 +696,16 @@ def exec : Nat → Ctx → Stmt → St → Res Flow
     | .assignSub n i e =>
       if !orderOk ctx st [i, e] then .undef "evaluation order of subscript and value matters (impure call)"
       else
-        (asInt "subscript" (eval fuel ctx i st)).bind fun iv s =>
-          (asInt "assigned value" (eval fuel ctx e s)).bind fun w s' =>
+        (asInt "subscript" (eval fuel ctx i (mark "(" st))).bind fun iv s =>
+          (asInt "assigned value" (eval fuel ctx e (mark "|" s))).bind fun w s' =>
             match (do let r ← arrayOf ctx s' n; arrSet s' r iv w) with
-            | .ok s'' => .ok .normal s''
+            | .ok s'' => .ok .normal (mark ")" s'')
             | .error why => .undef why
     | .syscall id args =>
       if !orderOk ctx st args then .undef "evaluation order of actuals matters (impure call)"
       else
-        (evalArgs fuel ctx args st).bind fun vs s =>
+        (evalArgs fuel ctx args (mark "(" st)).bind fun vs s0 =>
+          let s := mark ")" s0
           (doSyscall (BitVec.ofNat 32 id) vs s).bind fun _ s' => .ok .normal s'
     | .call f args =>
       if !orderOk ctx st args then .undef "evaluation order of actuals matters (impure call)"
@@ -702,12 +713,14 @@ def exec : Nat → Ctx → Stmt → St → Res Flow
         match resolveCallee ctx st f with
         | .bad why => .undef why
         | .sys id =>
-          (evalArgs fuel ctx args st).bind fun vs s =>
+          (evalArgs fuel ctx args (mark "(" st)).bind fun vs s0 =>
+            let s := mark ")" s0
             (doSyscall id vs s).bind fun _ s' => .ok .normal s'
         | .user p =>
           if p.isFunc then .undef s!"function {f} used as a statement"
           else
-            (evalArgs fuel ctx args st).bind fun vs s =>
+            (evalArgs fuel ctx args (mark "(" st)).bind fun vs s0 =>
+              let s := mark ")" s0
               (callUser fuel ctx p vs s).bind fun _ s' => .ok .normal s'
 
 /-- `{ s1; ...; sn }`. A `return` must be the last process executed. -/
@@ -774,6 +787,7 @@ structure Behaviour where
   exit : Word
   calls : List String       -- procedures and functions entered, oldest first
   returned : Bool           -- true: `main` returned; false: terminated by `0(v)` or `stop`
+  callTree : List String    -- the same call log with grouping marks (see `mark`), oldest first
   deriving DecidableEq, Repr
 
 inductive Result where
@@ -783,7 +797,7 @@ inductive Result where
 
 def mkBehaviour (inp : Input) (code : Word) (s : St) (returned : Bool) : Behaviour :=
   { events := s.io.log.reverse, stdinConsumed := inp.stdin.length - s.io.stdin.length,
-    exit := code, calls := s.calls.reverse, returned }
+    exit := code, calls := s.calls.reverse, returned, callTree := s.ctrace.reverse }
 
 /-- The reference semantics: behaviour of program `P` on input `inp`, or `undefined`. -/
 def run (P : Program) (inp : Input) (fuel : Nat) : Result :=
